@@ -8,7 +8,7 @@
 From Coq Require Import ZArith NArith Bool List.
 Import ListNotations.
 From XetModel Require Import Base.Codec Gen.CacheFacts Model.Merkle Model.Cache Proofs.Base64Proofs Proofs.CacheProofs Proofs.CacheHitProofs
-  Proofs.CacheInvProofs.
+  Proofs.CacheInvProofs Proofs.CacheOrphanProofs Proofs.CacheScanProofs Proofs.CacheReopenProofs.
 Open Scope N_scope.
 
 (* the cache file codec: the stored offsets parse back *)
@@ -84,9 +84,34 @@ Proof. exact ex_history_hits. Qed.
 Example C12_facts : key_name_length_checked = true /\ validate_bounds_checked = true /\ key_dir_prefix_checked = true.
 Proof. repeat split; reflexivity. Qed.
 
+(* re-opening: on a well-formed directory (each key directory under the prefix directory named by its first characters,
+   names unique) and with a canonical name decoder, what DiskCache::initialize tracks satisfies J2: every tracked entry is
+   unverified and the file at the path the cache computes for it has the length its name states.  With J1 (the hypothesis
+   about undetectable foreign entries that separates the recorded finding K1) every later hit, under any schedule, is exact. *)
+Theorem C12_reopen_establishes_invariant : forall b64d utf8 (G : key -> list bytes),
+  (forall n b, b64d n = Some b -> b64pad b = n /\ Forall is_byte b) ->
+  forall capacity tree s, TreeCanon tree -> initialize b64d utf8 capacity tree = Some (inr s) -> J2 G s.
+Proof. intros b64d utf8 G Hc capacity tree s. exact (initialize_J2 b64d utf8 Hc G capacity tree s). Qed.
+Theorem C12_reopen_then_hits_exact : forall b64d utf8 (G : key -> list bytes),
+  (forall n b, b64d n = Some b -> b64pad b = n /\ Forall is_byte b) ->
+  (forall k, Forall (fun c => c <> []) (G k) /\ Forall (Forall is_byte) (G k) /\ lenN (concat (G k)) < 4294967296 /\ lenN (G k) + 1 < 4294967296) ->
+  forall capacity tree s, TreeCanon tree -> initialize b64d utf8 capacity tree = Some (inr s) -> J1 G (fs s) ->
+  forall es c t vs c' k rs re it v a b offs data,
+  Forall (okevent G) es -> crun (s, []) es = Some c ->
+  nth_error (snd c) t = Some (PFound (OGet k rs re) it v) ->
+  cstep c (EStep t vs) = Some c' -> nth_error (snd c') t = Some (PDone (CHit a b offs data)) ->
+  a = rs /\ b = re /\ offs = cum 0 (gslice G k rs re) /\ data = concat (gslice G k rs re).
+Proof. exact reopen_then_hits_exact. Qed.
+Example C12_reopen_premises_satisfiable :
+  (forall n b, rx_dec n = Some b -> b64pad b = n /\ Forall is_byte b) /\ TreeCanon rx_tree /\
+  exists s, initialize rx_dec (fun _ => true) 100 rx_tree = Some (inr s) /\ nitems s = 1 /\ tbytes s = 5.
+Proof. split; [exact rx_dec_canon | exact reopen_example]. Qed.
+
 Print Assumptions C12_header_roundtrip.
 Print Assumptions C12_subrange_read_exact.
 Print Assumptions C12_paths_injective.
 Print Assumptions C12_invariant_every_schedule.
 Print Assumptions C12_hit_exact_every_schedule.
 Print Assumptions C12_initialize_never_panics.
+Print Assumptions C12_reopen_establishes_invariant.
+Print Assumptions C12_reopen_then_hits_exact.
